@@ -10,13 +10,15 @@ open Dbus Dbus.Spec Dbus.Model
 def isWhite (c : UInt8) : Bool := c = 0x20 || c = 0x09 || c = 0x0a || c = 0x0d
 
 /-- `find_key`: skip white, read the key up to '=' or white, skip white, expect '='.
-    Returns the key and the rest after '='; an empty key (trailing white / empty rule) is
-    reported as `some ([], rest)`; `none` = "key with no subsequent '='" -/
+    Returns the key and the rest after '='; an empty key is accepted only at the very end of
+    the text (trailing white / empty rule) and reported as `some ([], [])` — since the repair F28
+    anything after an empty key ("=x") is an error; `none` = "key with no subsequent '='" or
+    "empty key" -/
 def findKey (s : Bytes) : Option (Bytes × Bytes) :=
   let s1 := s.dropWhile isWhite
   let key := s1.takeWhile (fun c => c ≠ 0x3d && !isWhite c)
   let s2 := (s1.drop key.length).dropWhile isWhite
-  if key.isEmpty then some ([], s2)
+  if key.isEmpty then (if s2.isEmpty then some ([], []) else none)
   else match s2 with
     | c :: rest => if c = 0x3d then some (key, rest) else none
     | [] => none
